@@ -49,7 +49,18 @@ checks stay quiet.
 
 | change | what was changed | needs to manifest | checks (final) | history |
 |---|---|---|---|---|
-""" + "\n".join(rows) + "\n\n"
+""" + "\n".join(rows) + """
+
+**Harmless rewrites.** As the counterpart, twelve behaviour-preserving
+refactorings written by a sub-agent that saw nothing of `/verif`
+(`seeded/harmless-refactors/`: helper extraction, loops turned into
+comprehensions, the eight hand-unrolled octant copies of
+`compute_dyadic_downscaling` folded into one loop, merged `struct.pack` calls in
+`Shard.close`, `ceil_div` for open-coded expressions, …; 17 files, +253/−260
+lines) were applied together to a scratch worktree: all 20 checks stayed quiet
+(0 violations, 0 disagreements).
+
+"""
 p = os.path.join(V, "DESIGN.md"); s = open(p).read()
 marker = "## Appendix A — proof plans for the three largest developments"
 a = s.index("## 12. Seeded changes"); b = s.index(marker)
